@@ -20,6 +20,15 @@ CLAIMED = {
         note="Closed under the global context. Modelled: Python list indexing / int xor / iteration over bytes.",
         technique="Coq proof (induction over the message + finite vm_compute sweeps lifted by forallb_forall) + regenerated table + correspondence",
         design="6.12"),
+    "C19": dict(
+        text="Theorems (Coq, every sample/record/call history by induction): Toggle value = parity of released->pressed edges among "
+             "the sampled levels, on = not off, changes exactly at rising edges, debounced changes >= period apart and only on a pressed "
+             "sample; ButtonDebouncer exact characterisation (True iff pressed and now - last True > period), spacing, liveness; "
+             "PeriodicFilter bypass always passes, lower records > period apart; SimpleWatchdog isExpired iff now - last feed > timeout, "
+             "warnings > 1 s apart, addEpoch invisible. Tied to the four classes by trace correspondence under injected dyadic clocks.",
+        note="Closed under the global context. Clock arithmetic idealised over Z ticks (dyadic clocks in the correspondence); spacing theorems assume non-decreasing clock readings.",
+        technique="Coq proof (induction over histories, invariants) + trace correspondence evaluated in Coq",
+        design="6.11"),
 }
 
 PENDING_REASON = "check not built yet in this revision (model and proof planned in DESIGN.md section 6); not claimed until its check exists"
